@@ -34,3 +34,26 @@ Example C19_wellformed_examples :
   NoAdj (drop_head_empty (rev ["a"; "b"; ""])) /\ NoAdj (drop_head_empty (rev ["a"; ""; "b"; ""])) /\
   NoAdj (drop_head_empty (rev [""; "a"; "b"])) /\ NoAdj (drop_head_empty (rev ["a"; ""; ""])).
 Proof. cbn. auto. Qed.
+
+(* ---- export: what DOMSerializer.serialize_fragment does with marks (Model/ToDom.v, Proofs/ToDomProofs.v) ----
+   [ser_fragment s rendered spanning l]: the tree of wrapper elements built for the fragment l ([DMark] = the element a mark
+   is rendered as, [DElem] / [DLeafN] / [DText] = a rendered node), for any set of marks the serializer can render and any
+   set of non-spanning mark types.  [flat_list [] tree]: the rendered nodes in order, each with the marks of the wrappers
+   around it, outermost first.  Every node of the fragment appears exactly once, in order, inside wrappers for exactly its
+   own rendered marks, in the order of its mark set (marks compared with Mark.eq); and a node with a content hole holds
+   its own content serialised the same way. *)
+From PM Require Import Model.Mark Model.ToDom Proofs.ToDomProofs.
+Local Close Scope string_scope.
+Theorem C19_serializer_wraps_each_node_in_its_marks : forall s rendered spanning l,
+  exists encs,
+    flat_list [] (ser_fragment s rendered spanning l) = combine (List.map (ser_node s rendered spanning) l) encs /\
+    List.length encs = List.length l /\
+    Forall2 (fun c enc => marks_match (filter rendered (node_marks c)) enc) l encs.
+Proof. exact ser_fragment_marks. Qed.
+Print Assumptions C19_serializer_wraps_each_node_in_its_marks.
+
+Theorem C19_serializer_content_is_serialized_the_same_way : forall s rendered spanning ty a m cs,
+  is_leaf_ty s ty = false ->
+  ser_node s rendered spanning (Elem ty a m cs) = DElem ty a (ser_fragment s rendered spanning cs).
+Proof. exact ser_node_elem. Qed.
+Print Assumptions C19_serializer_content_is_serialized_the_same_way.
